@@ -342,6 +342,9 @@ func augmentCall(call *Call, f *ast.FuncDecl) {
 		default:
 			if strings.HasPrefix(t, "*") {
 				str = fmt.Sprintf("%s(%s)", t, popName())
+			} else if t == "func" || strings.HasPrefix(t, "map[") || strings.HasPrefix(t, "chan ") {
+				// These are a single pointer.
+				str = fmt.Sprintf("%s(%s)", t, popName())
 			} else if strings.HasPrefix(t, "[]") {
 				name := popName()
 				lenStr := popFmt(func(v uint64) string {
